@@ -1,3 +1,1570 @@
-//! C19 — bounded checks (to be written)
-use crate::ctx::Ctx;
-pub fn run(_ctx: &mut Ctx) {}
+//! C19 — Var-built terms mean the expression written; forgetting copies keeps meaning.
+//!
+//! Oracles (all written from the property statement, plain loops over Vec):
+//!  * `expected_built`: the term an expression program denotes — one hyperedge per applied operator,
+//!    one variable hyperedge per variable, one fresh node per production / use / declared interface
+//!    position; compared up to isomorphism AND up to the order of a variable hyperedge's tentacles
+//!    (the statement does not fix that order), via the `hubify` transformation.
+//!  * `expr_dag`: the expression itself (one node per variable, one hyperedge per operator).
+//!  * `forget_oracle`: quotient of the term by "all incident nodes of an eligible variable hyperedge
+//!    are one node", eligible hyperedges removed, everything else untouched.
+//!  * `eval_copy`: relational evaluation reading uniform variable hyperedges as copies.
+use crate::ctx::{guard, Ctx, Rng};
+use crate::model::*;
+use open_hypergraphs::lax;
+use open_hypergraphs::lax::functor::Functor;
+use open_hypergraphs::lax::var;
+use open_hypergraphs::lax::var::forget as fg;
+use serde_json::{json, Value};
+use std::cell::RefCell;
+use std::rc::Rc;
+
+type Check = fn(&mut Ctx, &Value);
+const CHECKS: &[(&str, Check)] = &[
+    ("all_equal", chk_all_equal),
+    ("op_image", chk_op_image),
+    ("forget", chk_forget),
+    ("forget_mono", chk_forget_mono),
+    ("build", chk_build),
+    ("build_meaning", chk_build_meaning),
+];
+
+// ------------------------------------------------------------------------------------------------
+// the test signature: node labels u8, edge labels Op(u8); Op(VAR) is the variable label
+// ------------------------------------------------------------------------------------------------
+pub const VAR: u8 = 99;
+
+#[derive(Clone, Debug, PartialEq)]
+pub struct Op(pub u8);
+
+impl var::HasVar for Op {
+    fn var() -> Op {
+        Op(VAR)
+    }
+}
+
+/// binary operator k applied to operand types (l, r): (result type, edge label). Deliberately not
+/// symmetric in (l, r) so that swapped operands / swapped type arguments are visible.
+fn bin_sig(k: usize, l: u8, r: u8) -> (u8, u8) {
+    let ty = match k {
+        0 => (l + 2 * r) % 3,
+        k if k % 2 == 1 => l,
+        _ => r,
+    };
+    (ty, 20 + k as u8)
+}
+/// unary operator k (0 = not, 1 = neg)
+fn un_sig(k: usize, l: u8) -> (u8, u8) {
+    (if k == 0 { l } else { (l + 1) % 3 }, 40 + k as u8)
+}
+
+macro_rules! sig_bin {
+    ($tr:ident, $f:ident, $k:expr) => {
+        impl var::$tr<u8, Op> for Op {
+            fn $f(l: u8, r: u8) -> (u8, Op) {
+                let (t, o) = bin_sig($k, l, r);
+                (t, Op(o))
+            }
+        }
+    };
+}
+sig_bin!(HasBitXor, bitxor, 0);
+sig_bin!(HasBitAnd, bitand, 1);
+sig_bin!(HasBitOr, bitor, 2);
+sig_bin!(HasShl, shl, 3);
+sig_bin!(HasShr, shr, 4);
+sig_bin!(HasAdd, add, 5);
+sig_bin!(HasMul, mul, 6);
+sig_bin!(HasSub, sub, 7);
+sig_bin!(HasDiv, div, 8);
+impl var::HasNot<u8, Op> for Op {
+    fn not(l: u8) -> (u8, Op) {
+        let (t, o) = un_sig(0, l);
+        (t, Op(o))
+    }
+}
+impl var::HasNeg<u8, Op> for Op {
+    fn neg(l: u8) -> (u8, Op) {
+        let (t, o) = un_sig(1, l);
+        (t, Op(o))
+    }
+}
+
+type T = lax::OpenHypergraph<u8, Op>;
+type V = var::Var<u8, Op>;
+
+fn to_term(m: &M, q: &[(usize, usize)]) -> T {
+    let mut f = m.to_lax();
+    for &(a, b) in q {
+        f.unify(lax::NodeId(a), lax::NodeId(b));
+    }
+    f.map_edges(Op)
+}
+
+/// read a library term back; pending identifications are applied by the reference quotient
+/// (a conforming answer may be lax). Err = not well formed.
+fn read_term(f: &T) -> Result<M, String> {
+    let g: LOH = f.clone().map_edges(|Op(x)| x);
+    if g.hypergraph.adjacency.len() != g.hypergraph.edges.len() {
+        return Err("adjacency / edge label lengths differ".into());
+    }
+    let (m, q) = M::from_lax(&g);
+    if !m.valid() {
+        return Err(format!("node id out of range: {}", m.json()));
+    }
+    if q.iter().any(|&(a, b)| a >= m.w.len() || b >= m.w.len()) {
+        return Err("pending identification out of range".into());
+    }
+    match quotient(&m, &q) {
+        Some((r, _)) => Ok(r),
+        None => Err("pending identification of differently labelled nodes".into()),
+    }
+}
+
+fn pairs_from_json(v: &Value) -> Option<Vec<(usize, usize)>> {
+    match v {
+        Value::Null => Some(vec![]),
+        _ => v.as_array()?.iter().map(|p| Some((p.get(0)?.as_u64()? as usize, p.get(1)?.as_u64()? as usize))).collect(),
+    }
+}
+fn u8s(v: &Value) -> Option<Vec<u8>> {
+    v.as_array()?.iter().map(|x| x.as_u64().filter(|&y| y < 256).map(|y| y as u8)).collect()
+}
+fn uss(v: &Value) -> Option<Vec<usize>> {
+    v.as_array()?.iter().map(|x| x.as_u64().map(|y| y as usize)).collect()
+}
+
+// ------------------------------------------------------------------------------------------------
+// oracles
+// ------------------------------------------------------------------------------------------------
+fn incident(m: &M, e: usize) -> Vec<usize> {
+    m.src[e].iter().chain(m.tgt[e].iter()).cloned().collect()
+}
+/// variable-labelled and all incident nodes carry one label (vacuously true without incident nodes)
+fn uniform_var(m: &M, e: usize) -> bool {
+    if m.x[e] != VAR {
+        return false;
+    }
+    let inc = incident(m, e);
+    inc.iter().all(|&v| m.w[v] == m.w[inc[0]])
+}
+fn eligible(m: &M, e: usize, mono: bool) -> bool {
+    uniform_var(m, e) && (!mono || (m.src[e].len() == 1 && m.tgt[e].len() == 1))
+}
+
+/// (the well-formed term with its pending identifications applied, the expected forgotten term)
+fn forget_oracle(m: &M, q: &[(usize, usize)], mono: bool) -> Option<(M, M)> {
+    let (m0, _) = quotient(m, q)?;
+    let mut kept = M { w: m0.w.clone(), x: vec![], src: vec![], tgt: vec![], s: m0.s.clone(), t: m0.t.clone() };
+    let mut pairs = vec![];
+    for e in 0..m0.x.len() {
+        if eligible(&m0, e, mono) {
+            let inc = incident(&m0, e);
+            for i in 1..inc.len() {
+                pairs.push((inc[0], inc[i]));
+            }
+        } else {
+            kept.x.push(m0.x[e]);
+            kept.src.push(m0.src[e].clone());
+            kept.tgt.push(m0.tgt[e].clone());
+        }
+    }
+    let (r, _) = quotient(&kept, &pairs)?;
+    Some((m0, r))
+}
+
+/// signature of an edge that survives any relabelling of nodes: (label, source labels, target labels)
+fn edge_sigs(m: &M, keep: impl Fn(usize) -> bool) -> Vec<(u8, Vec<u8>, Vec<u8>)> {
+    edge_sigs_h(m, keep, false)
+}
+/// `hub`: the label lists of variable hyperedges are sorted (tentacle order is not determined)
+fn edge_sigs_h(m: &M, keep: impl Fn(usize) -> bool, hub: bool) -> Vec<(u8, Vec<u8>, Vec<u8>)> {
+    let mut v: Vec<_> = (0..m.x.len())
+        .filter(|&e| keep(e))
+        .map(|e| {
+            let mut a = m.src[e].iter().map(|&i| m.w[i]).collect::<Vec<_>>();
+            let mut b = m.tgt[e].iter().map(|&i| m.w[i]).collect::<Vec<_>>();
+            if hub && m.x[e] == VAR {
+                a.sort();
+                b.sort();
+            }
+            (m.x[e], a, b)
+        })
+        .collect();
+    v.sort();
+    v
+}
+
+// ------------------------------------------------------------------------------------------------
+// isomorphism search with a step budget and most-constrained-first ordering (model::iso explores
+// hyperedges in index order, which is exponential on long chains of equally labelled operators when
+// the answer is "no").  Same notion of isomorphism as model::iso: node and hyperedge bijections
+// preserving labels, ordered incidence and both interfaces position by position.
+// Some(true/false) = decided, None = budget exhausted.
+// ------------------------------------------------------------------------------------------------
+struct IsoSearch<'a> {
+    a: &'a M,
+    b: &'a M,
+    pn: Vec<usize>,
+    inv: Vec<usize>,
+    done: Vec<bool>,
+    used: Vec<bool>,
+    steps: usize,
+    budget: usize,
+}
+const UNB: usize = usize::MAX;
+impl<'a> IsoSearch<'a> {
+    fn bind(&mut self, u: usize, v: usize, trail: &mut Vec<usize>) -> bool {
+        if self.pn[u] != UNB {
+            return self.pn[u] == v;
+        }
+        if self.inv[v] != UNB || self.a.w[u] != self.b.w[v] {
+            return false;
+        }
+        self.pn[u] = v;
+        self.inv[v] = u;
+        trail.push(u);
+        true
+    }
+    fn undo(&mut self, trail: Vec<usize>) {
+        for u in trail {
+            self.inv[self.pn[u]] = UNB;
+            self.pn[u] = UNB;
+        }
+    }
+    fn rec(&mut self, left: usize) -> Option<bool> {
+        if left == 0 {
+            // nodes not reached through an interface or a hyperedge: equal label multisets
+            let mut la: Vec<u8> = (0..self.a.w.len()).filter(|&u| self.pn[u] == UNB).map(|u| self.a.w[u]).collect();
+            let mut lb: Vec<u8> = (0..self.b.w.len()).filter(|&v| self.inv[v] == UNB).map(|v| self.b.w[v]).collect();
+            la.sort();
+            lb.sort();
+            return Some(la == lb);
+        }
+        // most constrained hyperedge of a: most bound incident nodes, then fewest free ones
+        let mut best = UNB;
+        let mut best_key = (0usize, 0usize);
+        for e in 0..self.a.x.len() {
+            if self.done[e] {
+                continue;
+            }
+            let inc = self.a.src[e].iter().chain(self.a.tgt[e].iter());
+            let bound = inc.clone().filter(|&&u| self.pn[u] != UNB).count();
+            let free = self.a.src[e].len() + self.a.tgt[e].len() - bound;
+            let key = (bound + 1, usize::MAX - free);
+            if best == UNB || key > best_key {
+                best = e;
+                best_key = key;
+            }
+        }
+        let e = best;
+        self.done[e] = true;
+        for f in 0..self.b.x.len() {
+            if self.used[f] || self.a.x[e] != self.b.x[f] || self.a.src[e].len() != self.b.src[f].len() || self.a.tgt[e].len() != self.b.tgt[f].len() {
+                continue;
+            }
+            self.steps += 1;
+            if self.steps > self.budget {
+                return None;
+            }
+            let mut trail = vec![];
+            let mut ok = true;
+            let pairs: Vec<(usize, usize)> = self.a.src[e].iter().cloned().zip(self.b.src[f].iter().cloned()).chain(self.a.tgt[e].iter().cloned().zip(self.b.tgt[f].iter().cloned())).collect();
+            for (u, v) in pairs {
+                if !self.bind(u, v, &mut trail) {
+                    ok = false;
+                    break;
+                }
+            }
+            if ok {
+                self.used[f] = true;
+                match self.rec(left - 1) {
+                    Some(false) => {}
+                    r => return r,
+                }
+                self.used[f] = false;
+            }
+            self.undo(trail);
+        }
+        self.done[e] = false;
+        Some(false)
+    }
+}
+fn iso_b(a: &M, b: &M, budget: usize) -> Option<bool> {
+    if a.w.len() != b.w.len() || a.x.len() != b.x.len() || a.s.len() != b.s.len() || a.t.len() != b.t.len() {
+        return Some(false);
+    }
+    // cheap necessary conditions
+    let (mut wa, mut wb) = (a.w.clone(), b.w.clone());
+    wa.sort();
+    wb.sort();
+    if wa != wb || edge_sigs(a, |_| true) != edge_sigs(b, |_| true) {
+        return Some(false);
+    }
+    let mut st = IsoSearch { a, b, pn: vec![UNB; a.w.len()], inv: vec![UNB; a.w.len()], done: vec![false; a.x.len()], used: vec![false; a.x.len()], steps: 0, budget };
+    let mut trail = vec![];
+    let ifc: Vec<(usize, usize)> = a.s.iter().cloned().zip(b.s.iter().cloned()).chain(a.t.iter().cloned().zip(b.t.iter().cloned())).collect();
+    for (u, v) in ifc {
+        if !st.bind(u, v, &mut trail) {
+            return Some(false);
+        }
+    }
+    st.rec(a.x.len())
+}
+const ISO_BUDGET: usize = 300_000;
+/// true if `got` is the expected term (up to isomorphism; `hub`: and up to the order of variable
+/// hyperedge tentacles); otherwise reports `clause` (or `clause`-undecided) and returns false
+fn expect_same(ctx: &mut Ctx, name: &str, clause: &str, input: &Value, got: &M, exp: &M, hub: bool) -> bool {
+    let r = if hub {
+        if got == exp {
+            Ok(true)
+        } else {
+            same_term(&hubify(got), &hubify(exp))
+        }
+    } else {
+        same_term(got, exp)
+    };
+    match r {
+        Ok(true) => true,
+        Ok(false) => {
+            ctx.fail(name, clause, input, got.json(), exp.json());
+            false
+        }
+        Err(why) => {
+            ctx.fail(name, &format!("{}-undecided", clause), input, json!({"why": why, "got": got.json()}), exp.json());
+            false
+        }
+    }
+}
+/// verdict for the checks: Ok(true/false); Err = undecided within the budget.  On small terms the
+/// shared model::iso is consulted as well and must agree.
+fn same_term(a: &M, b: &M) -> Result<bool, String> {
+    if a == b {
+        return Ok(true);
+    }
+    match iso_b(a, b, ISO_BUDGET) {
+        Some(r) => {
+            if a.x.len() <= 6 && is_iso(a, b) != r {
+                return Err(format!("internal: budgeted search says {}, model::iso says {}", r, !r));
+            }
+            Ok(r)
+        }
+        None => Err(format!("isomorphism search undecided after {} steps (terms are not identical)", ISO_BUDGET)),
+    }
+}
+
+#[derive(Clone, Debug, PartialEq)]
+enum Ev {
+    Conflict,
+    Out(Vec<Option<u64>>),
+}
+impl Ev {
+    fn json(&self) -> Value {
+        match self {
+            Ev::Conflict => json!("conflict"),
+            Ev::Out(v) => json!(v.iter().map(|x| x.map(|y| y.to_string())).collect::<Vec<_>>()),
+        }
+    }
+}
+fn mix(h: u64, x: u64) -> u64 {
+    let mut z = (h ^ x).wrapping_add(0x9E3779B97F4A7C15).wrapping_mul(0xBF58476D1CE4E5B9);
+    z ^= z >> 29;
+    z.wrapping_mul(0x94D049BB133111EB) ^ (z >> 32)
+}
+/// Relational evaluation: nodes hold values; interface position i of `s` receives inputs[i]; an
+/// operator hyperedge whose sources all hold a value writes f(label, inputs, j) on its j-th target;
+/// a uniform variable hyperedge is a copy: all its incident nodes hold the same value.  A node that
+/// would hold two different values makes the whole evaluation `Conflict`.  (The closure is
+/// independent of the firing order, see the argument in the module notes.)
+fn eval_copy(m: &M, inputs: &[u64]) -> Ev {
+    let n = m.w.len();
+    let mut val: Vec<Option<u64>> = vec![None; n];
+    fn put(val: &mut Vec<Option<u64>>, v: usize, x: u64) -> Result<bool, ()> {
+        match val[v] {
+            None => {
+                val[v] = Some(x);
+                Ok(true)
+            }
+            Some(y) if y == x => Ok(false),
+            _ => Err(()),
+        }
+    }
+    for (i, &v) in m.s.iter().enumerate() {
+        if put(&mut val, v, inputs[i]).is_err() {
+            return Ev::Conflict;
+        }
+    }
+    let copy: Vec<bool> = (0..m.x.len()).map(|e| uniform_var(m, e)).collect();
+    let mut fired = vec![false; m.x.len()];
+    loop {
+        let mut changed = false;
+        for e in 0..m.x.len() {
+            if copy[e] {
+                let inc = incident(m, e);
+                let vals: Vec<u64> = inc.iter().filter_map(|&v| val[v]).collect();
+                if let Some(&x) = vals.first() {
+                    for &v in &inc {
+                        match put(&mut val, v, x) {
+                            Err(()) => return Ev::Conflict,
+                            Ok(c) => changed |= c,
+                        }
+                    }
+                }
+            } else if !fired[e] && m.src[e].iter().all(|&v| val[v].is_some()) {
+                fired[e] = true;
+                changed = true;
+                let mut h = mix(0x1234, m.x[e] as u64);
+                for &v in &m.src[e] {
+                    h = mix(h, val[v].unwrap());
+                }
+                h = mix(h, m.tgt[e].len() as u64);
+                for (j, &v) in m.tgt[e].iter().enumerate() {
+                    if put(&mut val, v, mix(h, j as u64 + 1)).is_err() {
+                        return Ev::Conflict;
+                    }
+                }
+            }
+        }
+        if !changed {
+            break;
+        }
+    }
+    Ev::Out(m.t.iter().map(|&v| val[v]).collect())
+}
+fn input_vectors(k: usize) -> Vec<Vec<u64>> {
+    vec![(0..k).map(|i| 1000 + i as u64).collect(), vec![7; k], (0..k).map(|i| 500 + (i as u64 % 2)).collect()]
+}
+
+// ------------------------------------------------------------------------------------------------
+// check: all_elements_equal (the uniformity test the forget functors rely on)
+// input: {"a": [labels], "b": [labels]}
+// ------------------------------------------------------------------------------------------------
+fn chk_all_equal(ctx: &mut Ctx, input: &Value) {
+    let (a, b) = match (u8s(&input["a"]), u8s(&input["b"])) {
+        (Some(a), Some(b)) => (a, b),
+        _ => return,
+    };
+    ctx.case("all_equal", input, a.len() + b.len() >= 2);
+    let all: Vec<u8> = a.iter().chain(b.iter()).cloned().collect();
+    let mut expected = true;
+    for i in 0..all.len() {
+        for j in 0..all.len() {
+            if all[i] != all[j] {
+                expected = false;
+            }
+        }
+    }
+    match guard(|| fg::verif_hooks_local::all_elements_equal(&a, &b)) {
+        Err(p) => ctx.fail("all_equal", "C19.uniform-test-returns", input, json!(format!("panic: {}", p)), json!(expected)),
+        Ok(g) => {
+            ctx.expect(g == expected, "all_equal", "C19.uniform-test", input, json!(g), json!(expected));
+        }
+    }
+}
+
+// ------------------------------------------------------------------------------------------------
+// check: image of one operation under the public Forget functor
+// input: {"op": label, "src": [labels], "tgt": [labels]}
+// ------------------------------------------------------------------------------------------------
+fn chk_op_image(ctx: &mut Ctx, input: &Value) {
+    let (op, src, tgt) = match (input["op"].as_u64(), u8s(&input["src"]), u8s(&input["tgt"])) {
+        (Some(o), Some(s), Some(t)) if o < 256 => (o as u8, s, t),
+        _ => return,
+    };
+    ctx.case("op_image", input, op == VAR && src.len() + tgt.len() >= 1);
+    let all: Vec<u8> = src.iter().chain(tgt.iter()).cloned().collect();
+    let uniform = all.iter().all(|&l| l == all[0]);
+    let expected = if op == VAR && uniform {
+        if all.is_empty() {
+            M::empty()
+        } else {
+            M { w: vec![all[0]], x: vec![], src: vec![], tgt: vec![], s: vec![0; src.len()], t: vec![0; tgt.len()] }
+        }
+    } else {
+        singleton(op, &src, &tgt)
+    };
+    match guard(|| fg::Forget.map_operation(&Op(op), &src, &tgt)) {
+        Err(p) => ctx.fail("op_image", "C19.forget-returns", input, json!(format!("panic: {}", p)), expected.json()),
+        Ok(r) => match read_term(&r) {
+            Err(why) => ctx.fail("op_image", "C19.forget-wf", input, json!(why), expected.json()),
+            Ok(m) => {
+                if m.source_type() != src || m.target_type() != tgt {
+                    ctx.fail("op_image", "C19.forget-type", input, m.json(), expected.json());
+                } else {
+                    let clause = if op == VAR && uniform { "C19.forget-merged-node" } else { "C19.forget-other-edges-intact" };
+                    expect_same(ctx, "op_image", clause, input, &m, &expected, false);
+                }
+            }
+        },
+    }
+    // identity on objects
+    for &l in all.iter().take(2) {
+        match guard(|| Functor::<u8, Op, u8, Op>::map_object(&fg::Forget, &l).collect::<Vec<u8>>()) {
+            Ok(v) if v == vec![l] => {}
+            Ok(v) => ctx.fail("op_image", "C19.forget-type", input, json!(v), json!([l])),
+            Err(p) => ctx.fail("op_image", "C19.forget-returns", input, json!(p), json!([l])),
+        }
+    }
+}
+
+// ------------------------------------------------------------------------------------------------
+// check: forget / forget_monogamous on arbitrary well-formed lax terms
+// input: {"m": model (edge label 99 = variable), "q": [[a,b],..] pending identifications}
+// ------------------------------------------------------------------------------------------------
+fn chk_forget(ctx: &mut Ctx, input: &Value) {
+    forget_common(ctx, input, false)
+}
+fn chk_forget_mono(ctx: &mut Ctx, input: &Value) {
+    forget_common(ctx, input, true)
+}
+
+/// all clause checks of one forgotten term `got` against the oracle; `m0` = the original (quotiented)
+/// `hub`: the original is only determined up to the order of its variable hyperedges' tentacles
+/// (Var-built terms), so surviving variable hyperedges are compared up to that order too
+fn judge_forget(ctx: &mut Ctx, name: &str, input: &Value, m0: &M, expected: &M, got: &M, mono: bool, hub: bool) {
+    if got.source_type() != m0.source_type() || got.target_type() != m0.target_type() {
+        ctx.fail(name, "C19.forget-type", input, json!({"source": got.source_type(), "target": got.target_type()}), json!({"source": m0.source_type(), "target": m0.target_type()}));
+        return;
+    }
+    // every hyperedge that is not eligible must still be there, with its label and typed arity
+    let others = edge_sigs_h(m0, |e| !eligible(m0, e, mono), hub);
+    let got_others = edge_sigs_h(got, |e| !eligible(got, e, mono), hub);
+    if got_others != others {
+        ctx.fail(name, "C19.forget-other-edges-intact", input, json!(format!("{:?}", got_others)), json!(format!("{:?}", others)));
+        return;
+    }
+    // exactly the eligible ones are gone
+    let left: Vec<usize> = (0..got.x.len()).filter(|&e| eligible(got, e, mono)).collect();
+    if !left.is_empty() || got.x.len() != expected.x.len() {
+        ctx.fail(name, "C19.forget-exactly-uniform-var-edges", input, got.json(), expected.json());
+        return;
+    }
+    if !expect_same(ctx, name, "C19.forget-merged-node", input, got, expected, hub) {
+        return;
+    }
+    // a differently labelled variable hyperedge is read as an opaque operator, whose value depends on
+    // the order of its tentacles: when that order is not determined (hub) there is nothing to compare
+    if hub && (0..m0.x.len()).any(|e| m0.x[e] == VAR && !uniform_var(m0, e)) {
+        return;
+    }
+    for inp in input_vectors(m0.s.len()) {
+        let (a, b) = (eval_copy(m0, &inp), eval_copy(got, &inp));
+        if a != b {
+            ctx.fail(name, "C19.forget-eval", input, b.json(), a.json());
+            return;
+        }
+    }
+}
+
+fn forget_common(ctx: &mut Ctx, input: &Value, mono: bool) {
+    let name = if mono { "forget_mono" } else { "forget" };
+    let (m, q) = match (M::from_json(&input["m"]), pairs_from_json(&input["q"])) {
+        (Some(m), Some(q)) if m.valid() && q.iter().all(|&(a, b)| a < m.w.len() && b < m.w.len()) => (m, q),
+        _ => return,
+    };
+    // well-formed = pending identifications only between equally labelled nodes
+    let (m0, expected) = match forget_oracle(&m, &q, mono) {
+        Some(x) => x,
+        None => return,
+    };
+    let nontrivial = (0..m0.x.len()).any(|e| m0.x[e] == VAR && !incident(&m0, e).is_empty());
+    ctx.case(name, input, nontrivial);
+    let f = to_term(&m, &q);
+    let before = f.clone();
+    let got = guard(|| if mono { fg::forget_monogamous(&f) } else { fg::forget(&f) });
+    if f != before {
+        ctx.fail(name, "C19.forget-input-untouched", input, json!(format!("{:?}", f)), json!(format!("{:?}", before)));
+    }
+    let r = match got {
+        Err(p) => {
+            ctx.fail(name, "C19.forget-returns", input, json!(format!("panic: {}", p)), expected.json());
+            return;
+        }
+        Ok(r) => r,
+    };
+    let gm = match read_term(&r) {
+        Err(why) => {
+            ctx.fail(name, "C19.forget-wf", input, json!(why), expected.json());
+            return;
+        }
+        Ok(g) => g,
+    };
+    judge_forget(ctx, name, input, &m0, &expected, &gm, mono, false);
+    if !mono {
+        // the public functor value is the same map
+        match guard(|| fg::Forget.map_arrow(&f)) {
+            Err(p) => ctx.fail(name, "C19.forget-returns", input, json!(format!("Forget.map_arrow panic: {}", p)), expected.json()),
+            Ok(r2) => match read_term(&r2) {
+                Err(why) => ctx.fail(name, "C19.forget-wf", input, json!(why), expected.json()),
+                Ok(g2) => {
+                    expect_same(ctx, name, "C19.forget-merged-node", input, &g2, &expected, false);
+                }
+            },
+        }
+    }
+}
+
+// ------------------------------------------------------------------------------------------------
+// expression programs over the Var interface
+// input: {"prog": [instr..], "s": [handles], "t": [handles], "leak": [handles]}
+//   instr: ["new", label] | ["relabel", handle, label] | ["op", code, [handles], [labels]]
+//        | ["fn", code, [handles], label] | ["bin", k, a, b] | ["un", k, a]
+// every instruction appends the handles it returns to the handle list (op: one per result).
+// "relabel" is a second handle on the SAME variable with another default node label (public field).
+// ------------------------------------------------------------------------------------------------
+#[derive(Clone, Debug)]
+enum Ins {
+    New(u8),
+    Relabel(usize, u8),
+    Op(u8, Vec<usize>, Vec<u8>),
+    Fn(u8, Vec<usize>, u8),
+    Bin(usize, usize, usize),
+    Un(usize, usize),
+}
+#[derive(Clone, Debug)]
+struct Prog {
+    ins: Vec<Ins>,
+    s: Vec<usize>,
+    t: Vec<usize>,
+    leak: Vec<usize>,
+}
+impl Ins {
+    fn json(&self) -> Value {
+        match self {
+            Ins::New(l) => json!(["new", l]),
+            Ins::Relabel(h, l) => json!(["relabel", h, l]),
+            Ins::Op(c, a, r) => json!(["op", c, a, r]),
+            Ins::Fn(c, a, r) => json!(["fn", c, a, r]),
+            Ins::Bin(k, a, b) => json!(["bin", k, a, b]),
+            Ins::Un(k, a) => json!(["un", k, a]),
+        }
+    }
+    fn from_json(v: &Value) -> Option<Ins> {
+        let a = v.as_array()?;
+        let us = |i: usize| a.get(i)?.as_u64().map(|x| x as usize);
+        let b8 = |i: usize| a.get(i)?.as_u64().filter(|&x| x < 256).map(|x| x as u8);
+        Some(match a.first()?.as_str()? {
+            "new" => Ins::New(b8(1)?),
+            "relabel" => Ins::Relabel(us(1)?, b8(2)?),
+            "op" => Ins::Op(b8(1)?, uss(a.get(2)?)?, u8s(a.get(3)?)?),
+            "fn" => Ins::Fn(b8(1)?, uss(a.get(2)?)?, b8(3)?),
+            "bin" => Ins::Bin(us(1)?, us(2)?, us(3)?),
+            "un" => Ins::Un(us(1)?, us(2)?),
+            _ => return None,
+        })
+    }
+    fn produced(&self) -> usize {
+        match self {
+            Ins::Op(_, _, r) => r.len(),
+            _ => 1,
+        }
+    }
+}
+impl Prog {
+    fn json(&self) -> Value {
+        json!({"prog": self.ins.iter().map(|i| i.json()).collect::<Vec<_>>(), "s": self.s, "t": self.t, "leak": self.leak})
+    }
+    fn from_json(v: &Value) -> Option<Prog> {
+        let ins: Vec<Ins> = v.get("prog")?.as_array()?.iter().map(Ins::from_json).collect::<Option<_>>()?;
+        let leak = match v.get("leak") {
+            None | Some(Value::Null) => vec![],
+            Some(l) => uss(l)?,
+        };
+        let p = Prog { ins, s: uss(v.get("s")?)?, t: uss(v.get("t")?)?, leak };
+        // handles must exist when used; operator labels must not collide with the variable label
+        let mut h = 0usize;
+        for i in &p.ins {
+            let ok = match i {
+                Ins::New(_) => true,
+                Ins::Relabel(a, _) => *a < h,
+                Ins::Op(c, a, _) | Ins::Fn(c, a, _) => *c != VAR && a.iter().all(|&x| x < h),
+                Ins::Bin(k, a, b) => *k <= 8 && *a < h && *b < h,
+                Ins::Un(k, a) => *k <= 1 && *a < h,
+            };
+            if !ok {
+                return None;
+            }
+            h += i.produced();
+        }
+        if p.s.iter().chain(p.t.iter()).chain(p.leak.iter()).any(|&x| x >= h) {
+            return None;
+        }
+        Some(p)
+    }
+    fn applied_ops(&self) -> usize {
+        self.ins.iter().filter(|i| !matches!(i, Ins::New(_) | Ins::Relabel(..))).count()
+    }
+}
+
+/// What the program denotes, straight from the statement.  Returns
+/// (expected term, number of variables, number of applied operators, per variable: its tentacle labels)
+struct Denotation {
+    built: M,
+    vars: usize,
+    ops: usize,
+    /// the expression itself: one node per variable that is produced/used/declared at least once,
+    /// one hyperedge per operator; None when some variable is seen under two different labels
+    dag: Option<M>,
+}
+fn denote(p: &Prog) -> Denotation {
+    let mut m = M::empty();
+    // handle -> (variable, label); variable -> index of its hyperedge in m
+    let mut handles: Vec<(usize, u8)> = vec![];
+    let mut var_edge: Vec<usize> = vec![];
+    let mut ops = 0usize;
+    // the expression: operator applications over variables
+    let mut dag_ops: Vec<(u8, Vec<usize>, Vec<usize>)> = vec![];
+    fn new_var(m: &mut M, var_edge: &mut Vec<usize>) -> usize {
+        m.x.push(VAR);
+        m.src.push(vec![]);
+        m.tgt.push(vec![]);
+        var_edge.push(m.x.len() - 1);
+        var_edge.len() - 1
+    }
+    fn node(m: &mut M, l: u8) -> usize {
+        m.w.push(l);
+        m.w.len() - 1
+    }
+    let mut apply = |m: &mut M, handles: &mut Vec<(usize, u8)>, var_edge: &mut Vec<usize>, code: u8, args: &[usize], res: &[u8]| {
+        // every use reads the variable: a fresh node that the variable hyperedge writes to
+        let mut srcs = vec![];
+        for &h in args {
+            let (v, l) = handles[h];
+            let n = node(m, l);
+            m.tgt[var_edge[v]].push(n);
+            srcs.push(n);
+        }
+        // every result is a new variable, produced by this operator
+        let mut tgts = vec![];
+        let mut rvars = vec![];
+        for &l in res {
+            let v = new_var(m, var_edge);
+            let n = node(m, l);
+            m.src[var_edge[v]].push(n);
+            tgts.push(n);
+            handles.push((v, l));
+            rvars.push(v);
+        }
+        m.x.push(code);
+        m.src.push(srcs);
+        m.tgt.push(tgts);
+        dag_ops.push((code, args.iter().map(|&h| handles[h].0).collect(), rvars));
+    };
+    for i in &p.ins {
+        match i {
+            Ins::New(l) => {
+                let v = new_var(&mut m, &mut var_edge);
+                handles.push((v, *l));
+            }
+            Ins::Relabel(h, l) => {
+                let v = handles[*h].0;
+                handles.push((v, *l));
+            }
+            Ins::Op(c, a, r) => {
+                ops += 1;
+                apply(&mut m, &mut handles, &mut var_edge, *c, a, r)
+            }
+            Ins::Fn(c, a, r) => {
+                ops += 1;
+                apply(&mut m, &mut handles, &mut var_edge, *c, a, &[*r])
+            }
+            Ins::Bin(k, a, b) => {
+                ops += 1;
+                let (ty, code) = bin_sig(*k, handles[*a].1, handles[*b].1);
+                apply(&mut m, &mut handles, &mut var_edge, code, &[*a, *b], &[ty])
+            }
+            Ins::Un(k, a) => {
+                ops += 1;
+                let (ty, code) = un_sig(*k, handles[*a].1);
+                apply(&mut m, &mut handles, &mut var_edge, code, &[*a], &[ty])
+            }
+        }
+    }
+    // declared inputs feed the variable, declared outputs read it
+    for &h in &p.s {
+        let (v, l) = handles[h];
+        let n = node(&mut m, l);
+        m.src[var_edge[v]].push(n);
+        m.s.push(n);
+    }
+    for &h in &p.t {
+        let (v, l) = handles[h];
+        let n = node(&mut m, l);
+        m.tgt[var_edge[v]].push(n);
+        m.t.push(n);
+    }
+    // the expression DAG
+    let nv = var_edge.len();
+    let mut label: Vec<Option<u8>> = vec![None; nv];
+    let mut mixed = false;
+    for v in 0..nv {
+        for &n in m.src[var_edge[v]].iter().chain(m.tgt[var_edge[v]].iter()) {
+            match label[v] {
+                None => label[v] = Some(m.w[n]),
+                Some(l) if l != m.w[n] => mixed = true,
+                _ => {}
+            }
+        }
+    }
+    let dag = if mixed {
+        None
+    } else {
+        let mut id = vec![usize::MAX; nv];
+        let mut d = M::empty();
+        for v in 0..nv {
+            if let Some(l) = label[v] {
+                id[v] = d.w.len();
+                d.w.push(l);
+            }
+        }
+        for (c, a, r) in &dag_ops {
+            d.x.push(*c);
+            d.src.push(a.iter().map(|&v| id[v]).collect());
+            d.tgt.push(r.iter().map(|&v| id[v]).collect());
+        }
+        d.s = p.s.iter().map(|&h| id[handles[h].0]).collect();
+        d.t = p.t.iter().map(|&h| id[handles[h].0]).collect();
+        Some(d)
+    };
+    Denotation { built: m, vars: nv, ops, dag }
+}
+
+/// Make the order of a variable hyperedge's sources (and of its targets) irrelevant: the hyperedge
+/// becomes a hub node (label 250) with one 251-edge per source and one 252-edge per target.
+/// Operator hyperedges come first so the isomorphism search binds their nodes first.
+fn hubify(m: &M) -> M {
+    let mut r = M { w: m.w.clone(), x: vec![], src: vec![], tgt: vec![], s: m.s.clone(), t: m.t.clone() };
+    for e in 0..m.x.len() {
+        if m.x[e] != VAR {
+            r.x.push(m.x[e]);
+            r.src.push(m.src[e].clone());
+            r.tgt.push(m.tgt[e].clone());
+        }
+    }
+    for e in 0..m.x.len() {
+        if m.x[e] == VAR {
+            let hub = r.w.len();
+            r.w.push(250);
+            for &a in &m.src[e] {
+                r.x.push(251);
+                r.src.push(vec![a]);
+                r.tgt.push(vec![hub]);
+            }
+            for &b in &m.tgt[e] {
+                r.x.push(252);
+                r.src.push(vec![hub]);
+                r.tgt.push(vec![b]);
+            }
+        }
+    }
+    r
+}
+
+/// run the program against the real library
+fn run_build(p: &Prog, leaked: &RefCell<Vec<V>>) -> var::BuildResult<u8, Op> {
+    var::build(|state: &Rc<RefCell<T>>| {
+        let mut hs: Vec<V> = vec![];
+        for i in &p.ins {
+            match i {
+                Ins::New(l) => hs.push(V::new(state.clone(), *l)),
+                Ins::Relabel(h, l) => {
+                    let mut v = hs[*h].clone();
+                    v.label = *l;
+                    hs.push(v)
+                }
+                Ins::Op(c, a, r) => {
+                    let args: Vec<V> = a.iter().map(|&h| hs[h].clone()).collect();
+                    let out = var::operation(state, &args, r.clone(), Op(*c));
+                    hs.extend(out)
+                }
+                Ins::Fn(c, a, r) => {
+                    let args: Vec<V> = a.iter().map(|&h| hs[h].clone()).collect();
+                    hs.push(var::fn_operation(state, &args, *r, Op(*c)))
+                }
+                Ins::Bin(k, a, b) => {
+                    let (x, y) = (hs[*a].clone(), hs[*b].clone());
+                    hs.push(match k {
+                        0 => x ^ y,
+                        1 => x & y,
+                        2 => x | y,
+                        3 => x << y,
+                        4 => x >> y,
+                        5 => x + y,
+                        6 => x * y,
+                        7 => x - y,
+                        _ => x / y,
+                    })
+                }
+                Ins::Un(k, a) => {
+                    let x = hs[*a].clone();
+                    hs.push(if *k == 0 { !x } else { -x })
+                }
+            }
+        }
+        for &h in &p.leak {
+            leaked.borrow_mut().push(hs[h].clone());
+        }
+        (p.s.iter().map(|&h| hs[h].clone()).collect(), p.t.iter().map(|&h| hs[h].clone()).collect())
+    })
+}
+
+/// build the program; Ok(term as model, was Err(shared state)?) or a reported failure
+fn build_and_read(ctx: &mut Ctx, name: &str, input: &Value, p: &Prog, d: &Denotation) -> Option<(T, M)> {
+    let leaked: RefCell<Vec<V>> = RefCell::new(vec![]);
+    let res = match guard(|| run_build(p, &leaked)) {
+        Err(pn) => {
+            ctx.fail(name, "C19.build-returns", input, json!(format!("panic: {}", pn)), d.built.json());
+            return None;
+        }
+        Ok(r) => r,
+    };
+    let term: T = match res {
+        Ok(t) => {
+            if !p.leak.is_empty() {
+                ctx.fail(name, "C19.build-fails-iff-handle-outlives", input, json!("Ok although a variable handle outlives the builder"), json!("Err(shared state)"));
+            }
+            t
+        }
+        Err(rc) => {
+            if p.leak.is_empty() {
+                ctx.fail(name, "C19.build-fails-iff-handle-outlives", input, json!("Err although no handle outlives the builder"), json!("Ok"));
+            } else if !leaked.borrow().iter().all(|v| Rc::ptr_eq(&v.state, &rc)) {
+                ctx.fail(name, "C19.build-err-hands-back-shared-state", input, json!("returned state is not the state shared by the surviving handle"), json!("same Rc"));
+            }
+            let t = match rc.try_borrow() {
+                Ok(b) => b.clone(),
+                Err(_) => {
+                    ctx.fail(name, "C19.build-err-hands-back-shared-state", input, json!("state still mutably borrowed"), json!("free state"));
+                    return None;
+                }
+            };
+            t
+        }
+    };
+    drop(leaked);
+    match read_term(&term) {
+        Err(why) => {
+            ctx.fail(name, "C19.build-wf", input, json!(why), d.built.json());
+            None
+        }
+        Ok(m) => Some((term, m)),
+    }
+}
+
+fn chk_build(ctx: &mut Ctx, input: &Value) {
+    let p = match Prog::from_json(input) {
+        Some(p) => p,
+        None => return,
+    };
+    let d = denote(&p);
+    ctx.case("build", input, p.applied_ops() >= 1 || !p.s.is_empty() || !p.t.is_empty());
+    let (term, got) = match build_and_read(ctx, "build", input, &p, &d) {
+        Some(x) => x,
+        None => return,
+    };
+    if !term.hypergraph.is_strict() {
+        // not forbidden, but then the comparison below is on the quotiented term
+    }
+    let e = &d.built;
+    // interfaces in order
+    if got.source_type() != e.source_type() || got.target_type() != e.target_type() || got.s.len() != p.s.len() || got.t.len() != p.t.len() {
+        ctx.fail("build", "C19.build-interfaces-in-order", input, json!({"s": got.source_type(), "t": got.target_type()}), json!({"s": e.source_type(), "t": e.target_type()}));
+        return;
+    }
+    // one hyperedge per applied operator, with its label and typed arity
+    let (go, eo) = (edge_sigs(&got, |x| got.x[x] != VAR), edge_sigs(e, |x| e.x[x] != VAR));
+    if go.len() != d.ops || go != eo {
+        ctx.fail("build", "C19.build-one-edge-per-operator", input, json!(format!("{:?}", go)), json!(format!("{:?}", eo)));
+        return;
+    }
+    // one variable hyperedge per variable
+    let gv = got.x.iter().filter(|&&x| x == VAR).count();
+    if gv != d.vars {
+        ctx.fail("build", "C19.build-one-var-edge-per-variable", input, json!(gv), json!(d.vars));
+        return;
+    }
+    // the wiring: exact, up to isomorphism and up to the order of a variable's tentacles
+    // cheap necessary condition first: every variable hyperedge has its productions as sources and its uses as targets
+    let (gs, es) = (edge_sigs_h(&got, |x| got.x[x] == VAR, true), edge_sigs_h(e, |x| e.x[x] == VAR, true));
+    if gs != es {
+        ctx.fail("build", "C19.build-wiring", input, json!(format!("variable hyperedges {:?}", gs)), json!(format!("{:?}", es)));
+        return;
+    }
+    expect_same(ctx, "build", "C19.build-wiring", input, &got, e, true);
+}
+
+/// forget(build(program)) is the expression; evaluation agrees at every stage
+fn chk_build_meaning(ctx: &mut Ctx, input: &Value) {
+    let p = match Prog::from_json(input) {
+        Some(p) if p.leak.is_empty() => p,
+        _ => return,
+    };
+    let d = denote(&p);
+    ctx.case("build_meaning", input, p.applied_ops() >= 1 && (!p.s.is_empty() || !p.t.is_empty()));
+    let (term, got) = match build_and_read(ctx, "build_meaning", input, &p, &d) {
+        Some(x) => x,
+        None => return,
+    };
+    // every use reads the value produced for it: reading variable hyperedges as copies, the built
+    // term computes what the expression computes
+    if let Some(dag) = &d.dag {
+        for inp in input_vectors(p.s.len()) {
+            let (a, b) = (eval_copy(dag, &inp), eval_copy(&got, &inp));
+            if a != b {
+                ctx.fail("build_meaning", "C19.build-wiring-eval", input, b.json(), a.json());
+                return;
+            }
+        }
+    }
+    for mono in [false, true] {
+        let r = match guard(|| if mono { fg::forget_monogamous(&term) } else { fg::forget(&term) }) {
+            Err(pn) => {
+                ctx.fail("build_meaning", "C19.forget-returns", input, json!(format!("panic: {}", pn)), json!("a term"));
+                return;
+            }
+            Ok(r) => r,
+        };
+        let gm = match read_term(&r) {
+            Err(why) => {
+                ctx.fail("build_meaning", "C19.forget-wf", input, json!(why), json!("well-formed term"));
+                return;
+            }
+            Ok(g) => g,
+        };
+        // oracle applied to what the program denotes (not to the library's own output)
+        let (m0, expected) = forget_oracle(&d.built, &[], mono).expect("no identifications");
+        let before = ctx.failures.len();
+        judge_forget(ctx, "build_meaning", input, &m0, &expected, &gm, mono, true);
+        if ctx.failures.len() != before {
+            return;
+        }
+        if !mono {
+            if let Some(dag) = &d.dag {
+                if !expect_same(ctx, "build_meaning", "C19.forget-of-built-is-expression", input, &gm, dag, false) {
+                    return;
+                }
+            }
+        }
+    }
+}
+
+// ------------------------------------------------------------------------------------------------
+// generators
+// ------------------------------------------------------------------------------------------------
+fn mk(w: &[u8], edges: &[(u8, &[usize], &[usize])], s: &[usize], t: &[usize]) -> M {
+    M {
+        w: w.to_vec(),
+        x: edges.iter().map(|e| e.0).collect(),
+        src: edges.iter().map(|e| e.1.to_vec()).collect(),
+        tgt: edges.iter().map(|e| e.2.to_vec()).collect(),
+        s: s.to_vec(),
+        t: t.to_vec(),
+    }
+}
+fn finput(m: &M, q: &[(usize, usize)]) -> Value {
+    json!({"m": m.json(), "q": q.iter().map(|&(a, b)| vec![a, b]).collect::<Vec<_>>()})
+}
+
+fn forget_corners() -> Vec<(M, Vec<(usize, usize)>)> {
+    const V: u8 = VAR;
+    let mut c: Vec<(M, Vec<(usize, usize)>)> = vec![];
+    let mut add = |m: M| c.push((m, vec![]));
+    add(M::empty());
+    // variable hyperedge without incident nodes: alone, twice, next to isolated/interface nodes
+    add(mk(&[], &[(V, &[], &[])], &[], &[]));
+    add(mk(&[], &[(V, &[], &[]), (V, &[], &[]), (10, &[], &[])], &[], &[]));
+    add(mk(&[0, 1], &[(V, &[], &[])], &[0, 1], &[1, 0, 0]));
+    // no sources, differently labelled targets (named in the property) and its relatives
+    add(mk(&[0, 1], &[(V, &[], &[0, 1])], &[], &[0, 1]));
+    add(mk(&[0, 1], &[(V, &[], &[1, 0])], &[], &[]));
+    add(mk(&[0, 1], &[(V, &[0, 1], &[])], &[0, 1], &[]));
+    add(mk(&[0, 0], &[(V, &[], &[0, 1])], &[], &[0, 1]));
+    add(mk(&[0, 0], &[(V, &[0, 1], &[])], &[1, 0], &[]));
+    add(mk(&[0], &[(V, &[], &[0])], &[], &[0]));
+    add(mk(&[0], &[(V, &[0], &[])], &[0], &[]));
+    add(mk(&[0, 0, 1], &[(V, &[], &[0, 1, 2])], &[], &[0, 1, 2]));
+    add(mk(&[1, 0, 0], &[(V, &[], &[0, 1, 2])], &[], &[0, 1, 2]));
+    add(mk(&[0, 0, 0, 1], &[(V, &[0, 1], &[2, 3])], &[0, 1], &[2, 3]));
+    // each side uniform, the two sides different
+    add(mk(&[0, 0, 1, 1], &[(V, &[0, 1], &[2, 3])], &[0, 1], &[2, 3]));
+    add(mk(&[0, 1], &[(V, &[0], &[1])], &[0], &[1]));
+    add(mk(&[0, 1], &[(V, &[0, 1], &[0, 1])], &[0], &[1]));
+    // pairwise equal source/target but not uniform
+    add(mk(&[0, 1, 0, 1], &[(V, &[0, 1], &[2, 3])], &[0, 1], &[2, 3]));
+    // 1->1 on one label: distinct nodes, the same node, in a chain, in a cycle
+    add(mk(&[0, 0], &[(V, &[0], &[1])], &[0], &[1]));
+    add(mk(&[0], &[(V, &[0], &[0])], &[0], &[0]));
+    add(mk(&[0, 0, 0], &[(V, &[0], &[1]), (V, &[1], &[2])], &[0], &[2]));
+    add(mk(&[0, 0, 0], &[(V, &[0], &[1]), (V, &[1], &[2]), (V, &[2], &[0])], &[0], &[2, 1]));
+    // 1->2 copy, 2->1 merge, 2->2, repeated nodes, multiplicity above the number of nodes
+    add(mk(&[0, 0, 0], &[(V, &[0], &[1, 2])], &[0], &[1, 2]));
+    add(mk(&[0, 0, 0], &[(V, &[0, 1], &[2])], &[0, 1], &[2]));
+    add(mk(&[0, 0], &[(V, &[0, 0, 0], &[1, 1, 0, 1])], &[0, 0], &[1]));
+    add(mk(&[1], &[(V, &[0, 0, 0, 0, 0], &[0, 0, 0, 0, 0])], &[0], &[0, 0]));
+    add(mk(&[0, 0], &[(V, &[0], &[1]), (V, &[0], &[1]), (V, &[1], &[0]), (V, &[0], &[1]), (V, &[0], &[1])], &[0], &[1]));
+    // wide variable hyperedges: 12 -> 12 over 24 nodes, 0 -> 16, 16 -> 0 with the last node differently labelled
+    {
+        let n = 24usize;
+        let ids: Vec<usize> = (0..n).collect();
+        add(M { w: vec![2; n], x: vec![V], src: vec![ids[..12].to_vec()], tgt: vec![ids[12..].to_vec()], s: vec![0, 23], t: vec![12, 11] });
+        add(M { w: vec![2; 16], x: vec![V], src: vec![vec![]], tgt: vec![ids[..16].to_vec()], s: vec![], t: vec![15, 0] });
+        let mut w = vec![2u8; 16];
+        w[15] = 1;
+        add(M { w, x: vec![V], src: vec![ids[..16].to_vec()], tgt: vec![vec![]], s: vec![15, 0], t: vec![] });
+    }
+    // other labels with uniform nodes stay; labels next to the variable label stay
+    add(mk(&[0, 0], &[(10, &[0], &[1]), (98, &[0], &[1]), (100, &[1], &[0])], &[0], &[1]));
+    add(mk(&[0, 0, 0], &[(10, &[0], &[1]), (V, &[1], &[2])], &[0], &[2]));
+    // the adder picture: variable 1->2 feeding two operators
+    add(mk(&[0, 0, 0, 0, 0, 0, 0, 0], &[(V, &[0], &[2, 3]), (V, &[1], &[4, 5]), (10, &[2, 4], &[6]), (11, &[3, 5], &[7])], &[0, 1], &[6, 7]));
+    // two variable hyperedges sharing a node; a variable hyperedge over interface nodes listed twice
+    add(mk(&[0, 0, 0], &[(V, &[0], &[1]), (V, &[2], &[1])], &[0, 2], &[1]));
+    add(mk(&[0, 0], &[(V, &[0], &[1])], &[0, 0, 1], &[1, 0, 1]));
+    // mixed hyperedge next to an eligible one on the same nodes
+    add(mk(&[0, 0, 1], &[(V, &[0], &[1]), (V, &[0, 1], &[2])], &[0], &[2]));
+    // operator cycle through variable hyperedges
+    add(mk(&[0, 0, 0, 0], &[(10, &[0], &[1]), (V, &[1], &[2]), (11, &[2], &[3]), (V, &[3], &[0])], &[0], &[2]));
+    // isolated / dangling nodes around
+    add(mk(&[0, 1, 0, 1], &[(V, &[0], &[2])], &[1], &[3]));
+    // pending identifications: between the ends of a variable hyperedge, across two of them, on unrelated nodes
+    c.push((mk(&[0, 0], &[(V, &[0], &[1])], &[0], &[1]), vec![(0, 1)]));
+    c.push((mk(&[0, 0, 0, 0], &[(V, &[0], &[1]), (V, &[2], &[3])], &[0], &[3]), vec![(1, 2)]));
+    c.push((mk(&[0, 0, 0, 0], &[(V, &[0], &[1]), (10, &[2], &[3])], &[0], &[3]), vec![(1, 2), (2, 1), (1, 1)]));
+    c.push((mk(&[0, 1, 1, 0], &[(V, &[0], &[1]), (V, &[2], &[3])], &[0], &[3]), vec![(1, 2), (0, 3)]));
+    c.push((mk(&[0, 0, 0], &[], &[0], &[2]), vec![(0, 1), (1, 2)]));
+    // the shared corner list (labels 10/11 only) and the same with every hyperedge a variable
+    for m in corner_models() {
+        let mut v = m.clone();
+        v.x = v.x.iter().map(|_| VAR).collect();
+        c.push((m, vec![]));
+        c.push((v, vec![]));
+    }
+    c
+}
+
+/// 2^k equally labelled nodes collapsed by 1->1 variable hyperedges in binomial-tree order
+/// (two trees of 2^(k-1) merged last), optionally part of the merging left to pending identifications
+fn binomial_forget(k: usize, pending: bool, with_ops: bool) -> (M, Vec<(usize, usize)>) {
+    let n = 1usize << k;
+    let mut m = M { w: vec![1; n], x: vec![], src: vec![], tgt: vec![], s: vec![n - 1, 0], t: vec![n / 2, 1] };
+    let mut q = vec![];
+    for lvl in 0..k {
+        let step = 1usize << (lvl + 1);
+        let mut i = 0;
+        while i < n {
+            let (a, b) = (i, i + (1 << lvl));
+            if pending && lvl % 2 == 1 {
+                q.push((b, a));
+            } else {
+                m.x.push(VAR);
+                if lvl % 2 == 0 {
+                    m.src.push(vec![a]);
+                    m.tgt.push(vec![b]);
+                } else {
+                    m.src.push(vec![b]);
+                    m.tgt.push(vec![a]);
+                }
+            }
+            i += step;
+        }
+    }
+    if with_ops {
+        m.x.push(10);
+        m.src.push(vec![0, n - 1]);
+        m.tgt.push(vec![n / 2]);
+        m.x.push(11);
+        m.src.push(vec![]);
+        m.tgt.push(vec![3 % n]);
+    }
+    (m, q)
+}
+
+fn random_term(r: &mut Rng, big: bool) -> (M, Vec<(usize, usize)>) {
+    let n = r.range(0, if big { 7 } else { 4 });
+    let nl = r.range(1, 3);
+    let w: Vec<u8> = (0..n).map(|_| r.below(nl) as u8).collect();
+    let k = r.range(0, if big { 5 } else { 3 });
+    let mut m = M { w: w.clone(), x: vec![], src: vec![], tgt: vec![], s: vec![], t: vec![] };
+    for _ in 0..k {
+        let is_var = r.chance(3, 5);
+        let lab = if is_var { VAR } else { [10u8, 11, 98, 100][r.below(4)] };
+        let maxa = if big { 3 } else { 2 };
+        let (mut a, mut b) = (r.range(0, maxa), r.range(0, maxa));
+        if r.chance(1, 4) {
+            a = 1;
+            b = 1;
+        }
+        if n == 0 {
+            a = 0;
+            b = 0;
+        }
+        // pool: all nodes, or (for most variable hyperedges) the nodes of one label
+        let pool: Vec<usize> = if n > 0 && r.chance(3, 5) {
+            let l = w[r.below(n)];
+            (0..n).filter(|&i| w[i] == l).collect()
+        } else {
+            (0..n).collect()
+        };
+        let pick = |r: &mut Rng, c: usize| -> Vec<usize> { (0..c).map(|_| pool[r.below(pool.len())]).collect() };
+        let (s, t) = (pick(r, a), pick(r, b));
+        m.x.push(lab);
+        m.src.push(s);
+        m.tgt.push(t);
+    }
+    if n > 0 {
+        let (ls, lt) = (r.range(0, 3), r.range(0, 3));
+        m.s = r.vec_below(ls, n);
+        m.t = r.vec_below(lt, n);
+    }
+    let mut q = vec![];
+    if n > 0 && r.chance(1, 3) {
+        for _ in 0..r.range(1, 3) {
+            let a = r.below(n);
+            let same: Vec<usize> = (0..n).filter(|&i| w[i] == w[a]).collect();
+            q.push((a, same[r.below(same.len())]));
+        }
+    }
+    (m, q)
+}
+
+/// all lists over 0..n of length <= maxlen
+fn lists(n: usize, maxlen: usize) -> Vec<Vec<usize>> {
+    let mut out = vec![vec![]];
+    let mut frontier: Vec<Vec<usize>> = vec![vec![]];
+    for _ in 0..maxlen {
+        let mut next = vec![];
+        for l in &frontier {
+            for v in 0..n {
+                let mut x = l.clone();
+                x.push(v);
+                next.push(x);
+            }
+        }
+        out.extend(next.iter().cloned());
+        frontier = next;
+    }
+    out
+}
+
+fn exhaustive_forget(ctx: &mut Ctx) {
+    let thorough = ctx.thorough();
+    // one hyperedge: nodes <= 2 (thorough: 3, three labels), arity <= 2 (thorough 3 on three nodes), interface <= 1
+    let node_max = if thorough { 3 } else { 2 };
+    for n in 0..=node_max {
+        let nl: usize = if n == 3 { 3 } else { 2 };
+        let labelings = lists(nl, n).into_iter().filter(|l| l.len() == n).collect::<Vec<_>>();
+        let ar = if n == 3 { 3 } else { 2 };
+        let ends = lists(n, ar);
+        let ifc = if n == 3 { vec![vec![], vec![0], vec![2]] } else { lists(n, 1) };
+        for w in &labelings {
+            let w8: Vec<u8> = w.iter().map(|&x| x as u8).collect();
+            for lab in [VAR, 10] {
+                if lab != VAR && n == 3 {
+                    continue;
+                }
+                for s in &ends {
+                    for t in &ends {
+                        for (i, is) in ifc.iter().enumerate() {
+                            let it = &ifc[(i + s.len()) % ifc.len()];
+                            let m = M { w: w8.clone(), x: vec![lab], src: vec![s.clone()], tgt: vec![t.clone()], s: is.clone(), t: it.clone() };
+                            let inp = finput(&m, &[]);
+                            chk_forget(ctx, &inp);
+                            chk_forget_mono(ctx, &inp);
+                        }
+                    }
+                }
+            }
+        }
+    }
+    // two hyperedges on two nodes: arity <= 1 each (thorough: <= 2), both labels, all labelings
+    let ar = if thorough { 2 } else { 1 };
+    let ends = lists(2, ar);
+    for w in [[0u8, 0], [0, 1]] {
+        for l1 in [VAR, 10] {
+            for l2 in [VAR, 10] {
+                if l1 != VAR && l2 != VAR {
+                    continue;
+                }
+                for s1 in &ends {
+                    for t1 in &ends {
+                        for s2 in &ends {
+                            for t2 in &ends {
+                                let m = M { w: w.to_vec(), x: vec![l1, l2], src: vec![s1.clone(), s2.clone()], tgt: vec![t1.clone(), t2.clone()], s: vec![0], t: vec![1] };
+                                let inp = finput(&m, &[]);
+                                chk_forget(ctx, &inp);
+                                chk_forget_mono(ctx, &inp);
+                            }
+                        }
+                    }
+                }
+            }
+        }
+    }
+}
+
+fn prog(ins: Vec<Ins>, s: &[usize], t: &[usize], leak: &[usize]) -> Prog {
+    Prog { ins, s: s.to_vec(), t: t.to_vec(), leak: leak.to_vec() }
+}
+
+fn build_corners() -> Vec<Prog> {
+    use Ins::*;
+    let mut c = vec![];
+    c.push(prog(vec![], &[], &[], &[]));
+    // a variable alone: unused, input only, output only, wire, declared twice on each side
+    c.push(prog(vec![New(0)], &[], &[], &[]));
+    c.push(prog(vec![New(0)], &[0], &[], &[]));
+    c.push(prog(vec![New(0)], &[], &[0], &[]));
+    c.push(prog(vec![New(1)], &[0], &[0], &[]));
+    c.push(prog(vec![New(1)], &[0, 0], &[0, 0, 0], &[]));
+    c.push(prog(vec![New(0), New(1), New(2)], &[2, 0], &[0, 1, 2], &[]));
+    // the xor example of examples/adder.rs (one variable cloned) and with two variables
+    c.push(prog(vec![New(0), Bin(0, 0, 0)], &[0, 0], &[1], &[]));
+    c.push(prog(vec![New(0), New(1), Bin(0, 0, 1)], &[0, 1], &[2], &[]));
+    // every overloaded operator on differently typed operands, both operand orders
+    for k in 0..=8 {
+        c.push(prog(vec![New(1), New(2), Bin(k, 0, 1)], &[0, 1], &[2], &[]));
+        c.push(prog(vec![New(1), New(2), Bin(k, 1, 0)], &[0, 1], &[2], &[]));
+        c.push(prog(vec![New(0), New(2), Bin(k, 0, 1), Bin(k, 2, 0)], &[0, 1], &[3, 2], &[]));
+    }
+    for k in 0..=1 {
+        c.push(prog(vec![New(2), Un(k, 0)], &[0], &[1], &[]));
+        c.push(prog(vec![New(1), Un(k, 0), Un(1 - k, 1)], &[0], &[2, 1], &[]));
+    }
+    // operation: 0->0, 0->n (constants), n->0 (discard), same variable many times, unused results
+    c.push(prog(vec![Op(10, vec![], vec![])], &[], &[], &[]));
+    c.push(prog(vec![Op(10, vec![], vec![]), Op(10, vec![], vec![])], &[], &[], &[]));
+    c.push(prog(vec![Op(10, vec![], vec![0, 1])], &[], &[1, 0], &[]));
+    c.push(prog(vec![Fn(11, vec![], 2)], &[], &[0], &[]));
+    c.push(prog(vec![New(0), Op(10, vec![0], vec![])], &[0], &[], &[]));
+    c.push(prog(vec![New(0), Op(10, vec![0, 0, 0, 0, 0], vec![1, 1])], &[0], &[2, 1, 2], &[]));
+    c.push(prog(vec![New(0), New(1), Op(10, vec![1, 0, 1], vec![2, 0, 2])], &[0, 1], &[4, 2], &[]));
+    c.push(prog(vec![New(0), New(1), Fn(11, vec![1, 0], 2), Fn(11, vec![0, 1], 2)], &[0, 1], &[2, 3], &[]));
+    // a result declared as an input; an input never used; an output never produced
+    c.push(prog(vec![New(0), Un(0, 0)], &[1], &[0], &[]));
+    c.push(prog(vec![New(0), New(1), Un(0, 0)], &[0, 1], &[2], &[]));
+    c.push(prog(vec![New(0), New(1), Un(0, 0)], &[0], &[1, 2], &[]));
+    // operators before the variables they do not use; interleaved creation
+    c.push(prog(vec![Fn(11, vec![], 0), New(1), Bin(5, 0, 1), New(0), Bin(7, 3, 2)], &[1, 3], &[4], &[]));
+    // full adder of examples/adder.rs
+    c.push(prog(
+        vec![New(0), New(0), New(0), Bin(0, 0, 1), Bin(0, 3, 2), Bin(1, 0, 1), Bin(1, 2, 3), Bin(2, 5, 6)],
+        &[0, 1, 2],
+        &[4, 7],
+        &[],
+    ));
+    // second handle with another label on the same variable: differently labelled tentacles
+    c.push(prog(vec![New(0), Relabel(0, 1)], &[], &[0, 1], &[]));
+    c.push(prog(vec![New(0), Relabel(0, 1), Bin(5, 0, 1)], &[], &[2], &[]));
+    c.push(prog(vec![New(0), Relabel(0, 1), Un(0, 1)], &[0], &[2], &[]));
+    c.push(prog(vec![New(0), Relabel(0, 0), Un(0, 1)], &[0], &[2], &[]));
+    // handles that outlive the builder: an input, a result, an unused variable, two of them
+    c.push(prog(vec![New(0)], &[0], &[0], &[0]));
+    c.push(prog(vec![New(0), Un(1, 0)], &[0], &[1], &[1]));
+    c.push(prog(vec![New(0), New(1), Bin(6, 0, 1)], &[0], &[2], &[1]));
+    c.push(prog(vec![New(0), New(1), Bin(6, 0, 1)], &[0, 1], &[2], &[0, 2]));
+    c.push(prog(vec![New(0)], &[], &[], &[0]));
+    c.push(prog(vec![Fn(11, vec![], 1)], &[], &[], &[0, 0]));
+    // long chain of unary operators, wide sharing of one variable, long chain of binary ones
+    let mut ch = vec![New(0)];
+    for i in 0..40 {
+        ch.push(Un(i % 2, i));
+    }
+    c.push(prog(ch, &[0], &[40, 17], &[]));
+    c.push(prog(vec![New(1), Op(10, vec![0; 64], vec![0])], &[0], &[1, 0], &[]));
+    let mut ch = vec![New(0), New(1)];
+    for i in 0..24 {
+        ch.push(Bin(i % 9, i + 1, i / 2));
+    }
+    c.push(prog(ch, &[0, 1], &[25, 3, 3], &[]));
+    c
+}
+
+fn random_prog(r: &mut Rng, big: bool) -> Prog {
+    let mut ins = vec![];
+    let mut h = 0usize;
+    let relabel = r.chance(1, 8);
+    let steps = r.range(0, if big { 9 } else { 4 });
+    let labels = r.range(1, 3);
+    for _ in 0..steps {
+        let c = r.below(20);
+        let pick = |r: &mut Rng, h: usize| r.below(h);
+        let i = if h == 0 || c < 5 {
+            if h > 0 && c == 0 {
+                Ins::Fn(11, vec![], r.below(labels) as u8)
+            } else {
+                Ins::New(r.below(labels) as u8)
+            }
+        } else if c < 6 && relabel {
+            Ins::Relabel(pick(r, h), r.below(3) as u8)
+        } else if c < 10 {
+            let na = r.range(0, 3);
+            let nr = r.range(0, 2);
+            Ins::Op(10 + r.below(2) as u8, (0..na).map(|_| pick(r, h)).collect(), (0..nr).map(|_| r.below(labels) as u8).collect())
+        } else if c < 12 {
+            let na = r.range(0, 2);
+            Ins::Fn(12, (0..na).map(|_| pick(r, h)).collect(), r.below(labels) as u8)
+        } else if c < 18 {
+            Ins::Bin(r.below(9), pick(r, h), pick(r, h))
+        } else {
+            Ins::Un(r.below(2), pick(r, h))
+        };
+        h += i.produced();
+        ins.push(i);
+    }
+    let (ls, lt) = if h == 0 { (0, 0) } else { (r.range(0, 3), r.range(0, 3)) };
+    let s = r.vec_below(ls, h.max(1));
+    let t = r.vec_below(lt, h.max(1));
+    let nleak = r.range(1, 2);
+    let leak = if h > 0 && r.chance(1, 7) { r.vec_below(nleak, h) } else { vec![] };
+    Prog { ins, s, t, leak }
+}
+
+/// all programs: k0 <= 2 variables (labels 0,1), then one instruction from a small menu with every
+/// choice of operands, then optionally a second one; every interface of length <= 1 (thorough: <= 2
+/// outputs) over the handles
+fn exhaustive_build(ctx: &mut Ctx) {
+    let thorough = ctx.thorough();
+    fn menu(h: usize, second: bool) -> Vec<Ins> {
+        let mut v = vec![];
+        for a in 0..h {
+            v.push(Ins::Un(1, a));
+            for b in 0..h {
+                v.push(Ins::Bin(7, a, b));
+                if !second {
+                    v.push(Ins::Bin(0, a, b));
+                }
+            }
+        }
+        if !second {
+            for args in lists(h, 2) {
+                for res in [vec![], vec![0u8], vec![1, 0]] {
+                    v.push(Ins::Op(10, args.clone(), res));
+                }
+            }
+            v.push(Ins::New(2));
+        } else {
+            for args in lists(h, 1) {
+                v.push(Ins::Fn(11, args, 2));
+            }
+        }
+        v
+    }
+    for k0 in 0..=2usize {
+        let base: Vec<Ins> = (0..k0).map(|i| Ins::New(i as u8)).collect();
+        let mut progs: Vec<(Vec<Ins>, usize)> = vec![(base.clone(), k0)];
+        for i1 in menu(k0, false) {
+            let h1 = k0 + i1.produced();
+            let mut p1 = base.clone();
+            p1.push(i1);
+            progs.push((p1.clone(), h1));
+            for i2 in menu(h1, true) {
+                let h2 = h1 + i2.produced();
+                let mut p2 = p1.clone();
+                p2.push(i2);
+                progs.push((p2, h2));
+            }
+        }
+        for (ins, h) in progs {
+            let ss = lists(k0, 1);
+            let ts = lists(h, if thorough && h <= 3 { 2 } else { 1 });
+            for s in &ss {
+                for t in &ts {
+                    let p = Prog { ins: ins.clone(), s: s.clone(), t: t.clone(), leak: vec![] };
+                    let inp = p.json();
+                    chk_build(ctx, &inp);
+                    chk_build_meaning(ctx, &inp);
+                }
+            }
+            // all inputs declared in order, last handle as output
+            if k0 == 2 {
+                let p = Prog { ins: ins.clone(), s: vec![0, 1], t: vec![h - 1], leak: vec![] };
+                let inp = p.json();
+                chk_build(ctx, &inp);
+                chk_build_meaning(ctx, &inp);
+            }
+        }
+    }
+}
+
+pub fn run(ctx: &mut Ctx) {
+    if let Some((name, input)) = ctx.replay.clone() {
+        for (n, c) in CHECKS {
+            if *n == name {
+                c(ctx, &input);
+            }
+        }
+        return;
+    }
+    // ---- uniformity test: all pairs of lists over 3 labels, lengths <= 3 ----
+    let ls = lists(3, 3);
+    for a in &ls {
+        for b in &ls {
+            chk_all_equal(ctx, &json!({"a": a, "b": b}));
+        }
+    }
+    chk_all_equal(ctx, &json!({"a": [], "b": [5, 5, 5, 5, 5, 5, 5, 6]}));
+    chk_all_equal(ctx, &json!({"a": [6, 5, 5, 5, 5, 5, 5, 5], "b": []}));
+    chk_all_equal(ctx, &json!({"a": [5, 5, 5, 5], "b": [5, 5, 5, 5]}));
+    // ---- image of a single operation: labels {VAR, 10, 98}, all typed arities <= 2 over 2 labels (+ a few wide) ----
+    let l2 = lists(2, 2);
+    for op in [VAR, 10, 98] {
+        for s in &l2 {
+            for t in &l2 {
+                chk_op_image(ctx, &json!({"op": op, "src": s, "tgt": t}));
+            }
+        }
+        chk_op_image(ctx, &json!({"op": op, "src": [], "tgt": [2, 2, 2, 2, 1]}));
+        chk_op_image(ctx, &json!({"op": op, "src": [1, 2, 2, 2], "tgt": []}));
+        chk_op_image(ctx, &json!({"op": op, "src": [2, 2, 2], "tgt": [2, 2, 2, 2]}));
+        chk_op_image(ctx, &json!({"op": op, "src": [0, 0], "tgt": [1, 1]}));
+        chk_op_image(ctx, &json!({"op": op, "src": vec![1u8; 12], "tgt": vec![1u8; 13]}));
+        chk_op_image(ctx, &json!({"op": op, "src": vec![1u8; 17], "tgt": [1, 1, 1, 1, 1, 1, 1, 1, 0]}));
+    }
+    // ---- forget: corners, exhaustive small, binomial merges, random ----
+    for (m, q) in forget_corners() {
+        let inp = finput(&m, &q);
+        chk_forget(ctx, &inp);
+        chk_forget_mono(ctx, &inp);
+    }
+    exhaustive_forget(ctx);
+    for k in [1usize, 3, 5, 6] {
+        for pending in [false, true] {
+            for with_ops in [false, true] {
+                let (m, q) = binomial_forget(k, pending, with_ops);
+                let inp = finput(&m, &q);
+                chk_forget(ctx, &inp);
+                chk_forget_mono(ctx, &inp);
+            }
+        }
+    }
+    let n = ctx.budget(20000, 330000);
+    for i in 0..n {
+        let (m, q) = random_term(&mut ctx.rng, i % 3 == 0);
+        let inp = finput(&m, &q);
+        chk_forget(ctx, &inp);
+        chk_forget_mono(ctx, &inp);
+    }
+    // ---- build: corners, exhaustive small, random ----
+    for p in build_corners() {
+        let inp = p.json();
+        chk_build(ctx, &inp);
+        chk_build_meaning(ctx, &inp);
+    }
+    exhaustive_build(ctx);
+    let n = ctx.budget(15000, 260000);
+    for i in 0..n {
+        let p = random_prog(&mut ctx.rng, i % 3 == 0);
+        let inp = p.json();
+        chk_build(ctx, &inp);
+        chk_build_meaning(ctx, &inp);
+    }
+    ctx.notes.push(
+        "rule: (1) all_equal: all pairs of label lists over 3 labels, length<=3; (2) op_image: Forget.map_operation on labels {99=var,10,98} x all typed arities <=2 over 2 labels + wide ones; \
+         (3) forget/forget_mono: lax terms (model + pending identifications of equally labelled nodes), corner list (~70), exhaustive one hyperedge on <=2 nodes/2 labels/arity<=2 (thorough: 3 nodes/3 labels/arity<=3), \
+         exhaustive two hyperedges on 2 nodes arity<=1 (thorough <=2), binomial-order merges of 2..64 nodes (with/without pending identifications), random terms <=4 (every third <=7) nodes, <=3 (<=5) hyperedges, arity <=2 (<=3), 3 labels; \
+         (4) build/build_meaning: expression programs over Var::new, operation, fn_operation, 9 binary + 2 unary overloads, optional second handle with another label, optional handles kept alive outside the builder; \
+         corners (~70, chains of 40 unary / 24 binary operators, one variable used 64 times), exhaustive <=2 variables + <=2 instructions from a menu with all operand choices and interfaces, random programs <=4 (every third <=9) instructions. \
+         non-trivial: forget = some variable hyperedge has an incident node; build = an operator is applied or an interface is declared; build_meaning = operator applied and an interface declared; all_equal = >=2 elements; op_image = variable label with >=1 incident node"
+            .into(),
+    );
+}
